@@ -80,7 +80,10 @@ def _systems(rng, n):
             stim.append({"type": "regular", "rate": str(rng.choice([50., 100.])), "variables": [var]})
         if rng.random() < 0.4:
             # a few precisely timed extra spikes on a variable that an earlier entry already drives
-            stim.append({"type": "list", "list": " ".join(rng.sample(["1E-3", "4E-3", "11E-3", "0.0175"], rng.choice([1, 2, 3]))), "variables": [var]})
+            times_ = rng.sample(["1E-3", "4E-3", "11E-3", "0.0175"], rng.choice([1, 2, 3]))
+            if rng.random() < 0.5:
+                times_.append(times_[0])          # the same time named twice: two spikes
+            stim.append({"type": "list", "list": " ".join(times_), "variables": [var]})
         base["stimuli"] = stim
         base["options"] = {"sim_time": rng.choice([0.02, 0.05]), "max_step_size": 0.005}
         # analysis() offers no way to choose the seed (`random_seed` is not an accepted option key), so the
@@ -116,7 +119,15 @@ def case_benchmark(case):
     o_int = MixedIntegrator.integrate_ode
     measured = []
 
+    merged = []
+
     def rec_int(self, *a, **k):
+        # what the integrator will actually apply: per variable, the times of its merged event list with multiplicity
+        mm = {}
+        for t_, syms_ in zip(getattr(self, "all_spike_times", []), getattr(self, "all_spike_times_sym", [])):
+            for s_ in syms_:
+                mm.setdefault(str(s_), []).append(float(t_))
+        merged.append({k_: sorted(v_) for k_, v_ in mm.items()})
         r = o_int(self, *a, **k)
         measured.append([getattr(self.numeric_integrator, "__name__", str(self.numeric_integrator)), float(r[0]), float(r[1])])
         return r
@@ -185,14 +196,14 @@ def case_benchmark(case):
         random.seed.__self__ if False else None
         o_py_seed(987654321)        # ambient state: deterministic but unrelated to the option seed
         for rep in range(2):
-            del events[:], trains[:], recs[:], measured[:]
+            del events[:], trains[:], recs[:], measured[:], merged[:]
             try:
                 res = odetoolbox.analysis(json.loads(json.dumps(indict)), disable_stiffness_check=False)
                 names = [s["solver"] for s in res]
                 err = None
             except Exception as e:
                 names, err = [], type(e).__name__ + ": " + str(e)[:200]
-            out["runs"].append({"events": list(events), "trains": [dict(t) for t in trains], "recs": list(recs), "measured": [list(m) for m in measured],
+            out["runs"].append({"events": list(events), "trains": [dict(t) for t in trains], "recs": list(recs), "measured": [list(m) for m in measured], "merged": [dict(m) for m in merged],
                                 "names": names, "error": err})
     finally:
         np.random.seed, random.seed, random.random = o_np_seed, o_py_seed, o_py_random
@@ -397,6 +408,13 @@ def run(ctx, driver):
                     lost = [x for x in want_t if not any(abs(x - y) <= 1e-9 * max(1.0, abs(x)) for y in got_t)]
                     if lost and missing is None:
                         missing = {"stimulus": st_, "variable": v_, "specified_but_not_delivered": lost[:5], "delivered": len(got_t)}
+            # ... and what each candidate's integrator merges from it must be the generated train itself, spike for spike (coincident spikes on one
+            # variable count as many times as they were specified)
+            for gi_, mg_ in enumerate(r.get("merged") or []):
+                tr_ = r["trains"][min(gi_, len(r["trains"]) - 1)] if r["trains"] else {}
+                for v_, ts_ in tr_.items():
+                    if sorted(ts_) != mg_.get(v_, []) and missing is None:
+                        missing = {"variable": v_, "generated_train_has": len(ts_), "integrator_applies": len(mg_.get(v_, [])), "candidate": gi_}
             if missing:
                 ctx.fail("benchmark-not-on-the-specified-stimulus", indict, {"observed": missing, "signature": dict(sigbase, what="specified spikes missing")})
             if r["trains"][0] != r["trains"][1]:
